@@ -341,6 +341,24 @@ func Equal(p1, p2 Ptr) (bool, error) {
 		if l1.Len() != l2.Len() {
 			return false, nil
 		}
+		if (l1.flags^l2.flags)&isBitList != 0 {
+			// A bit list only equals another bit list.
+			return false, nil
+		}
+		if l1.flags&isBitList != 0 {
+			n := l1.length
+			b1 := l1.seg.slice(l1.off, bitListSize(n))
+			b2 := l2.seg.slice(l2.off, bitListSize(n))
+			full := int(n / 8)
+			if !bytes.Equal(b1[:full], b2[:full]) {
+				return false, nil
+			}
+			if rem := uint(n % 8); rem != 0 {
+				mask := byte(1)<<rem - 1
+				return b1[full]&mask == b2[full]&mask, nil
+			}
+			return true, nil
+		}
 		if l1.flags&isCompositeList == 0 && l2.flags&isCompositeList == 0 && l1.size != l2.size {
 			return false, nil
 		}
